@@ -33,7 +33,7 @@ def check(run):
         else:
             c, callee = calls[0]
             bind.check_call(run, repo, comp, c, callee)
-            args = [norm(a) for a in c.args]
+            args = K.actual_texts(callee, c)
             run.check(args == ['self.gs', 'self.ps', '%s.gs' % other, '%s.ps' % other], 'R2.compose', comp, c,
                       'compose(other): this map transforms first, i.e. the receiver\'s rows are transformed by the '
                       'other map: pauli_transform(self.gs, self.ps, %s.gs, %s.ps)' % (other, other))
@@ -57,7 +57,7 @@ def check(run):
         if len(comb) == 1 and gs_inv:
             c, callee = comb[0]
             bind.check_call(run, repo, inv, c, callee)
-            args = [norm(a) for a in c.args]
+            args = K.actual_texts(callee, c)
             run.check(args == [gs_inv, 'self.gs', 'self.ps'], 'R2.inverse', inv, c,
                       'the inverse rows select products of the receiver\'s rows: pauli_combine(%s, self.gs, self.ps)' % gs_inv)
             for st, _ in walk(inv.node):
